@@ -485,6 +485,8 @@ fn drive(
     if killed {
         rep.obs(&format!("C.crash_points/{}", point.name()), 1);
     }
+    // a run whose kill never happened is an undisturbed upgrade and is judged as one
+    let fam = if killed { point.name() } else { Point::None.name() };
 
     // ---- settle: fleet a little longer, then stop
     std::thread::sleep(Duration::from_millis(400));
@@ -530,12 +532,12 @@ fn drive(
     }
     let workers_json = json!({"before": before.iter().map(|w| format!("{} pid {} {:?}", w.0, w.1, w.2)).collect::<Vec<_>>(), "after": after.iter().map(|w| format!("{} pid {} {:?}", w.0, w.1, w.2)).collect::<Vec<_>>(), "old_worker_pid_alive": pid_alive(old_pid)});
     if proc_.child.try_wait().ok().flatten().is_some() {
-        finds.push(Find { sig: format!("system/{}/main_process_died", point.name()), what: "the main process exited during the upgrade".into(), witness: base(sh) });
+        finds.push(Find { sig: format!("system/{}/main_process_died", fam), what: "the main process exited during the upgrade".into(), witness: base(sh) });
         return Ok(());
     }
     if pid_alive(old_pid) && final_status.as_ref().is_some_and(|s| s.0 == ResponseStatus::Ok) {
         finds.push(Find {
-            sig: format!("system/{}/old_worker_still_running", point.name()),
+            sig: format!("system/{}/old_worker_still_running", fam),
             what: "the upgrade was answered OK, every client is done, yet the old worker process is still there 12 s later".into(),
             witness: {
                 let mut w = base(sh);
@@ -570,16 +572,17 @@ fn drive(
             Fate::ExemptRace => rep.obs("C.exempt/keepalive_request_raced_with_close", 1),
             Fate::Setup(_) => rep.obs("C.inflight_setup_failures", 1),
             _ if killed => rep.obs("C.exempt/in_flight_while_a_worker_was_killed", 1),
-            Fate::Corrupt(why) => finds.push(Find { sig: format!("system/{}/in_flight_corrupted/{ph}", point.name()), what: format!("in-flight exchange ({ph}) finished with wrong content: {why}"), witness: extra(sh) }),
-            Fate::Hung(why) => finds.push(Find { sig: format!("system/{}/in_flight_request_hung/{ph}", point.name()), what: format!("in-flight exchange ({ph}) neither completed nor was closed: {why}"), witness: extra(sh) }),
+            Fate::Cut(_) | Fate::Hung(_) if !r.plan.phase.is_request() => {
+                rep.obs(&format!("C.exempt/{}_at_soft_stop", if r.plan.phase == Phase::TcpPipe { "tcp_relay_cut" } else { "websocket_tunnel_cut" }), 1)
+            }
+            Fate::Corrupt(why) => finds.push(Find { sig: format!("system/{}/in_flight_corrupted/{ph}", fam), what: format!("in-flight exchange ({ph}) finished with wrong content: {why}"), witness: extra(sh) }),
+            Fate::Hung(why) => finds.push(Find { sig: format!("system/{}/in_flight_request_hung/{ph}", fam), what: format!("in-flight exchange ({ph}) neither completed nor was closed: {why}"), witness: extra(sh) }),
             Fate::Cut(why) => {
                 let sig = match r.plan.phase {
-                    Phase::TcpPipe => "tcp_relay_cut_at_soft_stop".to_owned(),
-                    Phase::WebSocket => "websocket_cut_at_soft_stop".to_owned(),
                     Phase::H2Streams => "h2_streams_cut_during_drain".to_owned(),
                     _ => format!("in_flight_request_cut/{ph}"),
                 };
-                finds.push(Find { sig: format!("system/{}/{sig}", point.name()), what: format!("in-flight exchange cut ({ph}): {why}"), witness: extra(sh) });
+                finds.push(Find { sig: format!("system/{}/{sig}", fam), what: format!("in-flight exchange cut ({ph}): {why}"), witness: extra(sh) });
             }
         }
     }
@@ -605,7 +608,7 @@ fn drive(
                 continue;
             }
             let cls = if class.starts_with("other") { "other" } else { class.as_str() };
-            finds.push(Find { sig: format!("system/{}/connect_failed/{cls}", point.name()), what: format!("connect() to a configured {proto} listener failed during the upgrade: {text}"), witness: conn_json(sh) });
+            finds.push(Find { sig: format!("system/{}/connect_failed/{cls}", fam), what: format!("connect() to a configured {proto} listener failed during the upgrade: {text}"), witness: conn_json(sh) });
             continue;
         }
         if c.connect_start_us >= t_up {
@@ -621,13 +624,18 @@ fn drive(
             }
         };
         if let Some(why) = first_bad {
+            if c.kind == Kind::Tcp && c.reqs.first().is_some_and(|r| matches!(r.end, ReqEnd::Partial(_))) {
+                // the relay was up (the backend's first byte arrived) and was torn down: not a request
+                rep.obs("C.exempt/tcp_relay_cut_at_soft_stop", 1);
+                continue;
+            }
             if killed {
                 rep.obs("C.exempt/first_request_lost_while_a_worker_was_killed", 1);
                 continue;
             }
             let hung = why.starts_with("Timeout");
             let sig = if hung { "connection_never_served" } else { "fresh_connection_not_served" };
-            finds.push(Find { sig: format!("system/{}/{sig}", point.name()), what: format!("the first request of a fresh {proto} connection (connect() succeeded) was not answered: {why}"), witness: conn_json(sh) });
+            finds.push(Find { sig: format!("system/{}/{sig}", fam), what: format!("the first request of a fresh {proto} connection (connect() succeeded) was not answered: {why}"), witness: conn_json(sh) });
         }
     }
 
@@ -654,7 +662,7 @@ fn drive(
         let (n_after, backlog) = listen_after.get(addr).copied().unwrap_or((0, 0));
         if !bad.is_empty() {
             finds.push(Find {
-                sig: format!("system/{}/listener_not_fully_served_after_upgrade", point.name()),
+                sig: format!("system/{}/listener_not_fully_served_after_upgrade", fam),
                 what: format!("after the upgrade {} of the probes of {} listener {addr} got no answer ({} listening sockets on the address before, {} after, {} worker(s) running)", bad.len(), kind.name(), n_before, n_after, running_after),
                 witness: {
                     let mut w = base(sh);
@@ -683,6 +691,7 @@ fn drive(
 
 pub fn run_system(ctx: &Ctx, rep: &mut Report) {
     rep.assume("monitor C: crash points are hit from outside the main process: SIGSTOP + SIGKILL before the answer to ReturnListenSockets, SIGKILL when the main process announces the new worker (descriptors out) or the soft stop; which internal step the kill lands in is recorded from the operator messages, not chosen exactly");
+    rep.assume("monitor C: TCP relays and upgraded (WebSocket) tunnels torn down at the soft stop are counted (C.exempt/...), not judged: they are not requests in flight");
     rep.assume("monitor C: requests and fresh connections that fail while a worker process is being killed on purpose are not judged; connect() failures after a kill-before-answer are not judged (a lone worker takes its listening sockets with it)");
     if let Some(path) = &ctx.replay {
         let v: Value = serde_json::from_str(&std::fs::read_to_string(path).unwrap_or_default()).unwrap_or(Value::Null);
@@ -705,9 +714,9 @@ pub fn run_system(ctx: &Ctx, rep: &mut Report) {
     for k in ["C.upgrade_requests", "C.operator_final_answer/ok", "C.connects_succeeded_during_upgrade", "C.probes_answered_after_upgrade", "C.crash_points/kill_after_fds", "C.crash_points/kill_before_answer", "C.crash_points/kill_during_soft_stop"] {
         rep.require(k);
     }
-    let runs = ctx.opt_u64("c_runs", ctx.tier.pick(6, 36));
+    let runs = ctx.opt_u64("c_runs", ctx.tier.pick(12, 120));
     let mut cctx = ctx.clone();
-    cctx.threads = ctx.opt_u64("c_threads", 4) as usize;
+    cctx.threads = ctx.opt_u64("c_threads", 6) as usize;
     // (C) has its own slice of the budget: it starts after (B) used most of the run's
     cctx.budget = ctx.started.elapsed() + Duration::from_secs(ctx.opt_u64("c_budget", ctx.tier.pick(60, 240)));
     let bin2 = bin.clone();
